@@ -105,6 +105,11 @@ func D5() []core.SeriesSpec {
 		Regular(`a{L="x",l="0",m="1"}`, 0, 30000, 50, 10.5, 2),
 		Regular(`a{Z="é",_="u",l="1"}`, 0, 30000, 50, 100.25, 0.5),
 		Regular(`a{l="1",m="1",zz="last"}`, 0, 30000, 50, 7.125, 3),
+		// a value that is a proper prefix of another one with more labels following, and a
+		// label name that is a proper prefix of another name (byte-wise comparison of an
+		// encoded label set orders these differently from labels.Compare)
+		Regular(`a{l="1",m="10",zz="first"}`, 0, 30000, 50, 31.5, 2),
+		Regular(`a{l="1",lx="0",m="1"}`, 0, 30000, 50, 57.25, 1),
 		Regular(`b{A="1",l="0"}`, 0, 30000, 50, 5, 1),
 		Regular(`b{Z="é",l="1",m="0"}`, 0, 30000, 50, 2.75, 3),
 	}
